@@ -278,7 +278,7 @@ theorem ext_variantGhostChildPass (g : GhostData) : Ext (variantGhostChildPass g
   · exact mem_insert_of_mem _ _ _ hm
   · exact hm
 
-theorem ext_memberNameCheck (f : Field) (ty : TypePath) (k : Kind) (msg : String) : Ext (memberNameCheck f ty k msg) := by
+theorem ext_memberNameCheck (f : Field) (ty : TypePath) (k : Kind) (fl : Bool) (msg : String) : Ext (memberNameCheck f ty k fl msg) := by
   intro es m hm
   unfold memberNameCheck
   repeat' split
@@ -326,14 +326,14 @@ theorem ext_childPass (sa : DataTypeAttrs) (tps into : List TypePath) (ca : Chil
   · refine mem_foldl_of_mem _ _ _ _ (fun tp es hm => ?_) hm
     exact ext_checkChildErrors _ _ _ _ _ hm
 
-theorem ext_namePass (input : Struct) (dta : TraitAttrCore) (k : Kind) : Ext (namePass input dta k) := by
+theorem ext_namePass (input : Struct) (dta : TraitAttrCore) (k : Kind) (fl : Bool) : Ext (namePass input dta k fl) := by
   intro es m hm
   unfold namePass
   split
   · refine mem_foldl_of_mem _ _ _ _ (fun field es hm => ?_) hm
     split
     · exact hm
-    · exact ext_memberNameCheck _ _ _ _ _ _ hm
+    · exact ext_memberNameCheck _ _ _ _ _ _ _ hm
   · exact hm
 
 theorem ext_validateFields (input : Struct) (byKind : List (TraitAttrCore × Kind)) (tps : List TypePath) :
@@ -342,7 +342,7 @@ theorem ext_validateFields (input : Struct) (byKind : List (TraitAttrCore × Kin
   unfold validateFields
   simp only
   split
-  · refine mem_foldl_of_mem _ _ _ m (fun x es hm => ext_namePass input x.1 x.2 es m hm) ?_
+  · refine mem_foldl_of_mem _ _ _ m (fun x es hm => ext_namePass input x.1.core x.2 x.1.fallible es m hm) ?_
     refine mem_foldl_of_mem _ _ _ m (fun x es hm => ext_ghostChildPass input.attrs x es m hm) ?_
     refine mem_foldl_of_mem _ _ _ m (fun ca es hm => ext_childPass _ _ _ ca es m hm) ?_
     exact mem_foldl_of_mem _ _ _ m (fun field es hm => ext_ghostDefaultPass _ field es m hm) hm
@@ -355,7 +355,7 @@ theorem ext_variantNamePass (v : Variant) (a : TraitAttr) (k : Kind) : Ext (vari
   unfold variantNamePass
   split
   · refine mem_foldl_of_mem _ _ _ _ (fun field es hm => ?_) hm
-    exact ext_memberNameCheck _ _ _ _ _ _ hm
+    exact ext_memberNameCheck _ _ _ _ _ _ _ hm
   · exact hm
 
 theorem ext_validateVariantFields (v : Variant) (dta : DataTypeAttrs) : Ext (validateVariantFields v dta) := by
